@@ -26,10 +26,21 @@ class Executor(Exec):
             return self.evs(list(e.args) + [kwd.value for kwd in e.keywords], st2, got_args)
         return self.ev(e.func, st, got_f)
 
-    def opaque_call(self, name, st, k):
-        """A call the model does not look into: fresh result of the declared type, ghost bookkeeping."""
+    def opaque_call(self, name, st, k, args=(), kw=None):
+        """A call the model does not look into: fresh result of the declared type, ghost bookkeeping
+        (call count, last boolean result, whether every call forwarded a keyword equal to the
+        top-level parameter of the same name)."""
         c = self.cur_contract
         short = name.split(".")[-1]
+        g0 = dict(st.ghost)
+        ent = getattr(self, "entry_env", None) or {}
+        for pname, pv in ent.items():
+            if not isinstance(pv, SPrim): continue
+            passed = (kw or {}).get(pname)
+            ok = (passed.t == pv.t) if isinstance(passed, SPrim) and passed.ty == pv.ty else z3.BoolVal(False)
+            key = f"passed:{short}:{pname}"
+            g0[key] = z3.And(g0.get(key, z3.BoolVal(True)), ok)
+        st = st.but(ghost=g0)
         rty = (getattr(c, "opaque_results", None) or {}).get(short, "opaque") if c else "opaque"
         res, st = fresh_value(st, S.parse_type(rty), "op." + short)
         g = dict(st.ghost)
@@ -40,10 +51,10 @@ class Executor(Exec):
 
     def apply(self, f, args, kw, st, k, node=None):
         if isinstance(f, SOpaqueObj):
-            return self.opaque_call(f.name, st, k)
+            return self.opaque_call(f.name, st, k, args, kw)
         oc = getattr(self.cur_contract, "opaque_calls", None) or []
         if isinstance(f, SClosure) and f.name.split(".")[-1] in oc:
-            return self.opaque_call(f.name, st, k)
+            return self.opaque_call(f.name, st, k, args, kw)
         if not isinstance(f, SClosure):
             raise Unsupported(f"call of {f}")
         if f.kind == "setattr":
@@ -105,6 +116,7 @@ class Executor(Exec):
             return caller_fr.on_raise(exc, st2.but(env=caller_env, fr=caller_fr))
         fr = Frame(on_return, on_raise, caller_fr, fn.name)
         fr.fn, fr.qual = fn, getattr(self, "fn_qual", {}).get(id(fn), (None, None))[0]
+        fr.entry_st = st.but(env=env)        # old() in this function's loop invariants means: at this call
         return self.ex(fn.body, st.but(env=env, fr=fr), lambda st2: on_return(SNone(), st2))
 
     def bind_params(self, fn, args, kw, st):
@@ -146,8 +158,15 @@ class Executor(Exec):
             return k(SClosure("exc", name), st)
         if name == "len":
             v = args[0]
-            if isinstance(v, SRef) and isinstance(st.cell(v.ref), (DictCell, SetCell)):
-                raise Unsupported("len of dict/set")
+            mem = None
+            if isinstance(v, SRef) and isinstance(st.cell(v.ref), DictCell): mem = st.cell(v.ref).dom
+            elif isinstance(v, SRef) and isinstance(st.cell(v.ref), SetCell): mem = st.cell(v.ref).mem
+            elif isinstance(v, SSetV): mem = v.mem
+            elif isinstance(v, SSubSet): mem = st.cell(v.ref).val[v.key]
+            if mem is not None:
+                c, facts = ops.card(mem)
+                for f in facts: st = st.fact(f)
+                return k(I(c), st)
             return k(I(ops.as_seq(st, v).n), st)
         if name in ("tuple", "list"):
             if not args:
@@ -201,6 +220,14 @@ class Executor(Exec):
             return k(B(t), st)
         if name in ("zip", "enumerate", "range", "reversed"):
             return k(SIter(name, args), st)
+        if name in ("min", "max") and len(args) == 1 and "key" in kw:
+            # an element of the iterable minimising an opaque key: *some* element (ValueError if empty)
+            sv = self.to_setv(args[0], st)
+            x = z3.Const("x!mn", S.sort_of(sv.elem))
+            def some(s2):
+                v, s3 = fresh_value(s2, sv.elem, name)
+                return k(v, s3.assume(sv.mem[v.t]))
+            return self.branch(z3.Exists([x], sv.mem[x]), st, some, lambda s2: self.raise_("ValueError", s2))
         if name == "max" and len(args) == 2 and all(isinstance(a, SPrim) and a.ty == "int" for a in args):
             return k(I(z3.If(args[0].t >= args[1].t, args[0].t, args[1].t)), st)
         if name == "min" and len(args) == 2 and all(isinstance(a, SPrim) and a.ty == "int" for a in args):
@@ -267,6 +294,7 @@ class Executor(Exec):
             v = rec.fields[fname]
             fty = S.parse_type(fty) if isinstance(fty, str) else fty
             if isinstance(fty, tuple) and fty[0] == "seq":
+                if isinstance(v, SClosure) and v.kind == "emptylist": v = EmptySeq()
                 sq = ops.as_seq(st, v) if not isinstance(v, EmptySeq) else v
                 if isinstance(sq, EmptySeq): sq = ops.empty_seq(fty[1])
                 if sq.elem != fty[1]: raise Unsupported(f"{rec.cls}.{fname}: element type {sq.elem}")
@@ -473,6 +501,12 @@ class Executor(Exec):
             else:
                 cell = SetCell(ty[1], z3.K(S.sort_of(ty[1]), z3.BoolVal(False)))
             return SRef(ty, r), st.put(r, cell)
+        if isinstance(v, SClosure) and v.kind == "emptylist" and hint:
+            ty = S.parse_type(hint)
+            e = ops.empty_seq(ty[1])
+            if ty[0] == "seq": return e, st
+            r = new_ref()
+            return SRef(ty, r), st.put(r, ListCell(ty[1], e.n, e.arr))
         if isinstance(v, EmptySeq) and hint:
             ty = S.parse_type(hint)
             return ops.empty_seq(ty[1]), st
@@ -498,6 +532,8 @@ class Executor(Exec):
                     v2 = self.coerce(v2, S.parse_type(hint), st3)
                     f = dict(c.fields); f[t.attr] = v2
                     return k(st3.put(o.ref, ObjCell(c.cls, f)))
+                if isinstance(o, SOpaqueObj):
+                    return k(st2)               # state of unmodelled objects is not tracked
                 raise Unsupported(f"attribute assignment on {o}")
             return self.ev(t.value, st, got)
         if isinstance(t, ast.Subscript):
@@ -518,6 +554,17 @@ class Executor(Exec):
                         return k(st2.put(o.ref, DictCell(c.kty, c.vty, z3.Store(c.dom, kt, True), z3.Store(c.val, kt, vt))))
                 raise Unsupported(f"subscript assignment on {o}")
             return self.evs([t.value, t.slice], st, got)
+        if isinstance(t, (ast.Tuple, ast.List)) and isinstance(v, SOpaqueObj):
+            def go3(i, st2):
+                if i == len(t.elts): return k(st2)
+                return self.assign(t.elts[i], SOpaqueObj(f"{v.name}[{i}]"), st2, lambda st3: go3(i + 1, st3))
+            return go3(0, st)
+        if isinstance(t, (ast.Tuple, ast.List)) and isinstance(v, STuple):
+            if len(v.items) != len(t.elts): return self.raise_("ValueError", st)
+            def go2(i, st2):
+                if i == len(t.elts): return k(st2)
+                return self.assign(t.elts[i], v.items[i], st2, lambda st3: go2(i + 1, st3))
+            return go2(0, st)
         if isinstance(t, (ast.Tuple, ast.List)):
             sq = ops.as_seq(st, v)
             st = st.assume(sq.n == len(t.elts))
@@ -529,6 +576,7 @@ class Executor(Exec):
 
     def coerce(self, v, ty, st):
         if isinstance(ty, tuple) and ty[0] == "seq":
+            if isinstance(v, SClosure) and v.kind == "emptylist": return ops.empty_seq(ty[1])
             if isinstance(v, EmptySeq): return ops.empty_seq(ty[1])
             sq = ops.as_seq(st, v)
             if sq.elem != ty[1]: raise Unsupported(f"sequence of {sq.elem} where {ty[1]} expected")
